@@ -1173,7 +1173,7 @@ impl TypeSpace {
     // TODO deal with metadata
     fn convert_number<'a>(
         &self,
-        _metadata: &'a Option<Box<Metadata>>,
+        metadata: &'a Option<Box<Metadata>>,
         _validation: &Option<Box<schemars::schema::NumberValidation>>,
         format: &Option<String>,
     ) -> Result<(TypeEntry, &'a Option<Box<Metadata>>)> {
@@ -1189,8 +1189,8 @@ impl TypeSpace {
         */
 
         match format.as_deref() {
-            Some("float") => Ok((TypeEntry::new_float("f32"), &None)),
-            _ => Ok((TypeEntry::new_float("f64"), &None)),
+            Some("float") => Ok((TypeEntry::new_float("f32"), metadata)),
+            _ => Ok((TypeEntry::new_float("f64"), metadata)),
         }
     }
 
